@@ -74,18 +74,27 @@ ReadHeaderEntry(buf, pos) ==
   LET h == ReadHeader(buf, pos) IN IF ~h.ok THEN h ELSE
   LET c == ReadCompactSize(buf, h.pos) IN IF ~c.ok THEN c ELSE Ok(h.v, c.pos)
 
+\* signed value of a 4-byte little-endian field; an address that is not there
+Int32Val(b4) == IF b4[4] >= 128 THEN LEVal(<<b4[1], b4[2], b4[3], b4[4] - 128>>) - 2147483647 - 1 ELSE LEVal(b4)
+NoAddr == [services |-> <<>>, ip |-> <<>>, port |-> <<>>]
 ParsePayload(t, b) ==
   CASE t = "version" ->
+         \* which fields a version message carries depends on the version it announces (protocol documentation:
+         \* addr_from, nonce and user agent from 106, start height from 209, relay flag from 70001 - BIP37); a field
+         \* the version does not carry is absent (an empty value here) except relay, which then means "yes".
+         \* 10300 is the historic spelling of 300.
          LET a == ReadN(b, 0, 4) IN IF ~a.ok THEN a ELSE
+         LET v0 == Int32Val(a.v) ver == IF v0 = 10300 THEN 300 ELSE v0
+             verb == IF v0 = 10300 THEN <<44, 1, 0, 0>> ELSE a.v IN
          LET s == ReadN(b, a.pos, 8) IN IF ~s.ok THEN s ELSE
          LET tm == ReadN(b, s.pos, 8) IN IF ~tm.ok THEN tm ELSE
          LET to == ReadNetAddr(FALSE, b, tm.pos) IN IF ~to.ok THEN to ELSE
-         LET fr == ReadNetAddr(FALSE, b, to.pos) IN IF ~fr.ok THEN fr ELSE
-         LET n == ReadN(b, fr.pos, 8) IN IF ~n.ok THEN n ELSE
-         LET sv == ReadVarBytes(b, n.pos) IN IF ~sv.ok THEN sv ELSE
-         LET h == ReadN(b, sv.pos, 4) IN IF ~h.ok THEN h ELSE
-         LET r == ReadN(b, h.pos, 1) IN IF ~r.ok THEN r ELSE
-         Ok([t |-> t, ver |-> a.v, services |-> s.v, time |-> tm.v, addrTo |-> to.v, addrFrom |-> fr.v, nonce |-> n.v,
+         LET fr == IF ver >= 106 THEN ReadNetAddr(FALSE, b, to.pos) ELSE Ok(NoAddr, to.pos) IN IF ~fr.ok THEN fr ELSE
+         LET n == IF ver >= 106 THEN ReadN(b, fr.pos, 8) ELSE Ok(<<>>, fr.pos) IN IF ~n.ok THEN n ELSE
+         LET sv == IF ver >= 106 THEN ReadVarBytes(b, n.pos) ELSE Ok(<<>>, n.pos) IN IF ~sv.ok THEN sv ELSE
+         LET h == IF ver >= 209 THEN ReadN(b, sv.pos, 4) ELSE Ok(<<>>, sv.pos) IN IF ~h.ok THEN h ELSE
+         LET r == IF ver >= 70001 THEN ReadN(b, h.pos, 1) ELSE Ok(<<1>>, h.pos) IN IF ~r.ok THEN r ELSE
+         Ok([t |-> t, ver |-> verb, services |-> s.v, time |-> tm.v, addrTo |-> to.v, addrFrom |-> fr.v, nonce |-> n.v,
              subver |-> sv.v, height |-> h.v, relay |-> r.v[1]], r.pos)
     [] t \in {"verack", "getaddr", "mempool"} -> Ok([t |-> t], 0)
     [] t = "addr" -> LET v == ReadVector(ReadNetAddrT, b, 0) IN IF ~v.ok THEN v ELSE Ok([t |-> t, addrs |-> v.v], v.pos)
